@@ -9,6 +9,8 @@ func init() {
 		Run: func(c *Ctx) {
 			ruleWire(c)
 			ruleLeafDescriptors(c)
+			ruleRegDescriptor(c)
+			ruleDescriptorTags(c)
 			ruleStructDescriptor(c)
 			ruleDescriptorBodyClosed(c)
 			ruleNoSort(c)
